@@ -306,7 +306,7 @@ def post_load_mask_clauses(col, K):
     return problems
 
 
-def scope_leak_problems(text, fault, K):
+def scope_leak_problems(text, fault, K, how='defined only in another scope'):
     """a reference to a name that is defined only in ANOTHER scope (another effect's sid, another
     geometry's source, another scene's node) must behave exactly like a reference to an undefined
     name: same escaping class, same recorded error classes, same loaded values - it is dangling and
@@ -318,12 +318,12 @@ def scope_leak_problems(text, fault, K):
     for ign, nm in ((None, 'no ignore'), ([K['DaeError']], 'ignore=[DaeError]')):
         ra, rb = load(a, ign), load(b, ign)
         if ra['esc_name'] != rb['esc_name'] or ra['err_names'] != rb['err_names']:
-            problems.append('%s: the reference %r, defined only in another scope, gives %s/%s; an undefined name there gives %s/%s'
-                            % (nm, fault['value'], ra['esc_name'], ra['err_names'], rb['esc_name'], rb['err_names']))
+            problems.append('%s: the reference %r, %s, gives %s/%s; an undefined name there gives %s/%s'
+                            % (nm, fault['value'], how, ra['esc_name'], ra['err_names'], rb['esc_name'], rb['err_names']))
         elif ra['snapshot'] != rb['snapshot']:
             diff = [x[:2] for x, y in zip(ra['snapshot'] or [], rb['snapshot'] or []) if x != y]
-            problems.append('%s: the reference %r, defined only in another scope, is bound to something: the loaded objects %s '
-                            'differ from those loaded with an undefined name in its place' % (nm, fault['value'], diff[:3]))
+            problems.append('%s: the reference %r, %s, is bound to something: the loaded objects %s '
+                            'differ from those loaded with an undefined name in its place' % (nm, fault['value'], how, diff[:3]))
     return problems
 
 
@@ -405,10 +405,22 @@ def run_doc_case(case, bases, base_cache):
         if len(case['faults']) == 1 and case['faults'][0]['kind'] == 'dangling' and label in DANGLING_IS_BROKENREF:
             if sesc != 'DaeBrokenRefError':
                 fail('dangling-kind', 'a dangling reference (%s) gives %s instead of DaeBrokenRefError' % (label, sesc), str(sesc))
+        # ---- clause: an error reached before an instance_node that never resolves is recorded although
+        # the node is deferred, retried and finally given up
+        if case.get('recorded_before_deferral') and not full['esc']:
+            single = load(F.apply_faults(text, case['faults'][:1]), [K['DaeError']])
+            missing = [n for n in set(single['err_names']) if n not in full['err_names']]
+            if not single['esc'] and missing:
+                fail('recorded', 'the %s recorded for %s alone is not recorded when an instance_node later in the same '
+                                 'top-level node never resolves: errors %s' % (missing, F.site_label(case['faults'][0]), full['err_names']))
         # ---- clause: a name defined in another scope is dangling
         if len(case['faults']) == 1 and case['faults'][0]['kind'] == 'crossref':
             for what in scope_leak_problems(text, case['faults'][0], K):
                 fail('scope-leak', what)
+        # ---- clause: a reference that is not '#'+id is never resolved through its fragment
+        if len(case['faults']) == 1 and case['faults'][0]['kind'] == 'extref' and not case['faults'][0].get('empty'):
+            for what in scope_leak_problems(text, case['faults'][0], K, how='which is not of the form #id'):
+                fail('foreign-reference', what)
         # ---- clause: containment + nothing invented
         base = base_cache[case['base']]
         root = F.parse(text)
